@@ -453,6 +453,152 @@ def quiet_phase_confirmed(ctx):
     return rows
 
 
+# generic scans whose request generator fails when the scan starts: the engine still has to close done, the command
+# exits one exit delay later (error logged)
+GENFAIL = [("docker, reversed port range", ["docker", "-p", "30-20", "10.0.0.1"]),
+           ("socks, reversed port range", ["socks", "-p", "1090-1080", "10.0.0.1/30"]),
+           ("elastic, address file missing", ["elastic", "-p", "9200", "-f", "/nonexistent/c16-missing.jsonl"]),
+           ("socks, address file is a directory", ["socks", "-p", "1080", "-f", "/tmp"])]
+
+
+def genfail_runs(ctx, delay_ms=300, limit_s=6.0):
+    """No network is touched (the generator fails first): run outside any namespace, all at once."""
+    from concurrent.futures import ThreadPoolExecutor
+    exe = build_sx(ctx)
+    if not exe:
+        return []
+
+    def one(i):
+        name, args = GENFAIL[i]
+        o = {"kind": "genfail", "class": "genfail", "id": i, "cmd": name, "delay_ms": delay_ms,
+             "args": "sx %s --exit-delay %dms" % (" ".join(args), delay_ms)}
+        t0 = time.monotonic_ns()
+        pr = subprocess.Popen([exe] + args + ["--exit-delay", "%dms" % delay_ms], stdout=subprocess.DEVNULL,
+                              stderr=subprocess.PIPE, text=True)
+        try:
+            pr.wait(timeout=limit_s)
+            o["wall_ns"], o["exited"], o["sx_rc"] = time.monotonic_ns() - t0, True, pr.returncode
+            o["stderr"] = pr.stderr.read()[-300:]
+        except subprocess.TimeoutExpired:
+            pr.kill()
+            pr.wait()
+            o["wall_ns"], o["exited"] = time.monotonic_ns() - t0, False
+        return o
+
+    with ThreadPoolExecutor(max_workers=len(GENFAIL)) as ex:
+        return list(ex.map(one, range(len(GENFAIL))))
+
+
+def spec_genfail(o):
+    if not o["exited"]:
+        return ("%s (%s): the request generator fails at the start of the scan and the command never exits (killed after "
+                "%d ms; it must exit one exit delay after the start)" % (o["args"], o["cmd"], o["wall_ns"] // MS))
+    return None
+
+
+def flap_run(ctx, tag="fl", delay_ms=4500):
+    """`sx arp --exit-delay 4.5s 10.78.0.0/30`; 1.5 s after the start (the probes have left) the scanning interface is set
+    down for 300 ms and up again; the responder answers the request for 10.78.0.2 2.5 s after it saw it, three times 200 ms
+    apart (>= 1 s before the delay runs out).  The reply must be printed."""
+    exe = build_sx(ctx)
+    if not exe:
+        return []
+    tool = os.path.join(verif.HBIN, "c16")
+    ns = "vc16%s%d" % (tag, os.getpid())
+    o = {"kind": "flap", "class": "flap", "id": 0, "delay_ms": delay_ms,
+         "cmd": "sx arp -i v0 --exit-delay %dms 10.78.0.0/30 + `ip link set v0 down; sleep 0.3; ip link set v0 up` 1.5 s after "
+                "the start" % delay_ms}
+    setup = [["ip", "netns", "add", ns],
+             ["ip", "-n", ns, "link", "add", "v0", "type", "veth", "peer", "name", "v1"],
+             ["ip", "-n", ns, "link", "set", "lo", "up"], ["ip", "-n", ns, "link", "set", "v0", "up"],
+             ["ip", "-n", ns, "link", "set", "v1", "up"], ["ip", "-n", ns, "addr", "add", "10.78.0.1/24", "dev", "v0"]]
+    try:
+        for cmd in setup:
+            rc, out = verif.sh(cmd, timeout=20)
+            if rc != 0:
+                o["err"] = "cannot set up a network namespace: " + out.strip()[:200]
+                return [o]
+        time.sleep(0.3)
+        respf = os.path.join(ctx.work, "resp%s.jsonl" % tag)
+        resp = subprocess.Popen(["ip", "netns", "exec", ns, tool, "-respond", "v1", "-ip", "10.78.0.2", "-after", "2500ms",
+                                 "-repeat", "3", "-every", "200ms", "-out", respf, "-total", "20s"],
+                                stdout=subprocess.PIPE, stderr=subprocess.STDOUT, text=True, cwd=ctx.work)
+        if resp.stdout.readline().strip() != "ready":
+            o["err"] = "responder did not start"
+            resp.kill()
+            return [o]
+        pr = subprocess.Popen(["ip", "netns", "exec", ns, exe, "arp", "-i", "v0", "--exit-delay", "%dms" % delay_ms,
+                               "10.78.0.0/30"], stdout=subprocess.PIPE, stderr=subprocess.DEVNULL, text=True)
+        time.sleep(1.5)
+        o["link_down_unix_ns"] = time.time_ns()
+        verif.sh(["ip", "-n", ns, "link", "set", "v0", "down"], timeout=10)
+        time.sleep(0.3)
+        verif.sh(["ip", "-n", ns, "link", "set", "v0", "up"], timeout=10)
+        o["link_back_unix_ns"] = time.time_ns()
+        try:
+            out, _ = pr.communicate(timeout=30)
+        except subprocess.TimeoutExpired:
+            pr.kill()
+            out, _ = pr.communicate()
+            o["err"] = "sx arp did not exit"
+        o["exit_unix_ns"], o["stdout"], o["sx_rc"] = time.time_ns(), out[-1000:], pr.returncode
+        resp.wait(timeout=30)
+        got = ctx.read_jsonl(respf) if os.path.exists(respf) else []
+        if got and got[0].get("replies"):
+            o.update({"last_probe_unix_ns": got[0]["last_probe_unix_ns"], "reply_sent_unix_ns": got[0]["reply_sent_unix_ns"],
+                      "last_reply_unix_ns": got[0]["last_reply_unix_ns"], "replies": got[0]["replies"],
+                      "reply_mac": got[0]["reply_mac"]})
+        elif not o.get("err"):
+            o["err"] = "the responder could not send a reply"
+    except Exception as e:  # noqa: BLE001
+        o["err"] = "link-flap run failed: %r" % (e,)
+    finally:
+        verif.sh(["ip", "netns", "del", ns], timeout=20)
+    return [o]
+
+
+def flap_exercised(o):
+    """The flap happened after the last probe had left (otherwise the run only shows an ordinary late reply)."""
+    return (not o.get("err")) and o["last_probe_unix_ns"] < o["link_down_unix_ns"]
+
+
+def flap_missed(o):
+    if o.get("err"):
+        return False
+    # judged only when the link was back before the first reply and the last reply left >= 500 ms before the delay ran out
+    if o["reply_sent_unix_ns"] < o["link_back_unix_ns"] + 100 * MS:
+        return False
+    if not flap_exercised(o):
+        return False
+    if o["last_reply_unix_ns"] - o["last_probe_unix_ns"] > (o["delay_ms"] - 500) * MS:
+        return False
+    return o["reply_mac"] not in o["stdout"].lower()
+
+
+def spec_flap(o):
+    if flap_missed(o):
+        return ("%s: the link came back %d ms after the last probe, the reply was then put on the wire %d times from %d ms "
+                "after the last probe on (exit delay %d ms) and was not reported%s; output %r"
+                % (o["cmd"], (o["link_back_unix_ns"] - o["last_probe_unix_ns"]) // MS, o["replies"],
+                   (o["reply_sent_unix_ns"] - o["last_probe_unix_ns"]) // MS, o["delay_ms"],
+                   " (again when repeated)" if o.get("confirmed") else "", o["stdout"][:100]))
+    return None
+
+
+def flap_confirmed(ctx):
+    rows = flap_run(ctx)
+    if rows and not rows[0].get("err") and not flap_exercised(rows[0]):
+        rows = flap_run(ctx, tag="fr")     # the machine was too slow: the link went down before the probes left; once more
+    if rows and flap_missed(rows[0]):
+        again = flap_run(ctx, tag="fm")
+        if again and flap_missed(again[0]):
+            rows[0]["confirmed"] = True
+        else:
+            ctx.info.append("link-flap e2e: the reply was missed once and reported when repeated (not a finding)")
+            return again
+    return rows
+
+
 def spec_cmd(o):
     if o.get("err"):
         return None
@@ -484,11 +630,22 @@ def deep_stage(ctx, n, long_run=True):
     an exit delay above ten seconds."""
     from concurrent.futures import ThreadPoolExecutor
     bad = 0
-    with ThreadPoolExecutor(max_workers=3) as ex:
+    with ThreadPoolExecutor(max_workers=4) as ex:
         fq = ex.submit(quiet_phase_confirmed, ctx)
+        ff = ex.submit(flap_confirmed, ctx)
         fls = [ex.submit(cmd_runs, ctx, [i], 12000, "L%d" % i) for i in (0, 3)] if long_run else []
         qrows = fq.result()
+        frows = ff.result()
         lrows = [o for f in fls for o in f.result()]
+    for o in frows:
+        if o.get("err"):
+            ctx.skipped.append("link-flap e2e: " + o["err"])
+            continue
+        ctx.count("flap", ("flap", o["exit_unix_ns"]), nontrivial=True, sample={"cmd": o["cmd"], "stdout": o["stdout"][:80]})
+        why = spec_flap(o)
+        if why:
+            bad += 1
+            report(ctx, o, why, ctx.seed, n)
     for o in qrows:
         if o.get("err"):
             ctx.skipped.append("quiet-phase e2e: " + o["err"])
@@ -590,6 +747,12 @@ def run(ctx):
             why = spec_cmd(o)
             if why:
                 report(ctx, o, why, ctx.seed, n)
+        for o in genfail_runs(ctx):
+            ctx.count("genfail:" + o["cmd"], ("genfail", o["cmd"], o["wall_ns"]), nontrivial=True,
+                      sample={"cmd": o["args"], "exited": o["exited"], "wall_ms": o["wall_ns"] // MS})
+            why = spec_genfail(o)
+            if why:
+                report(ctx, o, why, ctx.seed, n)
         if not quick:
             deep_stage(ctx, n)
     if model_ok and rows:
@@ -603,6 +766,13 @@ def run(ctx):
                 ctx.broken.append(("correspondence: script %d (%s): %s" % (o["id"], o["class"], "; ".join(CODES[c] for c in codes)),
                                    json.dumps({k: v for k, v in o.items() if k != "output"})[:900]))
             ctx.cov["traces_validated_against_impl"] += len(part)
+    if ctx.broken and not ctx.findings and os.path.exists(os.path.join(verif.HBIN, "c16")) \
+            and any("afpacket" in x for x in (getattr(ctx, "source_diff", []) or [])):
+        # the AF_PACKET source changed: the stages that exercise it directly first (late replies are in every run already)
+        for o in flap_confirmed(ctx):
+            why = None if o.get("err") else spec_flap(o)
+            if why:
+                report(ctx, o, why, ctx.seed, n)
     if ctx.broken and not ctx.findings and os.path.exists(os.path.join(verif.HBIN, "c16")):
         for sd in (ctx.seed + 101, ctx.seed + 202):
             ok, _ = ctx.harness_run("c16", ["-out", "search.jsonl", "-seed", sd, "-n", 200, "-par", 8], timeout=900)
@@ -638,6 +808,16 @@ def replay(ctx, path):
     i = r["input"]
     if not ctx.harness_build("c16"):
         return 1
+    if i.get("kind") == "genfail":
+        got = [o for o in genfail_runs(ctx) if o["id"] == i["id"]]
+        why = next((w for w in map(spec_genfail, got) if w), None)
+        print("replay %s: %s" % (GENFAIL[i["id"]][0], why or "property holds on this run"))
+        return 1 if why else 0
+    if i.get("kind") == "flap":
+        got = flap_run(ctx)
+        why = spec_flap(got[0]) if got else None
+        print("replay link flap: %s" % (why or (got and got[0].get("err")) or "property holds on this run"))
+        return 1 if why else 0
     if i.get("kind") in ("parse", "rx", "quietphase"):
         obs = r["observed"]
         if i["kind"] == "parse":
